@@ -1041,6 +1041,49 @@ def rule_roc(repo, rep):
                         _lin_str(tuple(obj_w.items()), 0)))
 
 
+def rule_bound_unmodified(repo, rep):
+  R = 'R-FORM:rate-bound-enters-unmodified'
+  rep.rule(R, 'in calibrate_threshold every comparison that involves '
+           'min_rate has min_rate itself on one side: arithmetic on the '
+           'bound (fpr <= 1 - min_rate for 1 - fpr >= min_rate) is not exact '
+           'in floating point (1 - 0.8 < 0.2), so a cut-off whose rate '
+           'equals the bound would be lost')
+  f = repo.get_func(FN)
+  n = 0
+  body = f.node.body
+  for node in ast.walk(f.node):
+    if not isinstance(node, ast.Compare) or len(node.ops) != 1:
+      continue
+    st = astutil.stmt_of(f.node, node)
+    top = st
+    pm = astutil.parents(f.node)
+    while top not in body and top in pm:
+      top = pm[top]
+    sides = []
+    for side in (node.left, node.comparators[0]):
+      un = astutil.unfold(side, body, top, stop=('min_rate',)) \
+          if top in body else side
+      sides.append(un)
+    inv = [u for u in sides if any(isinstance(x, ast.Name) and
+                                   x.id == 'min_rate' for x in ast.walk(u))]
+    if not inv:
+      continue
+    n += 1
+    key = 'calibrate_threshold:%s' % ast.unparse(node)[:40]
+    if len(inv) == 2:
+      rep.unknown(R, key, site(f, node), 'min_rate on both sides')
+    elif isinstance(inv[0], ast.Name) or (
+            isinstance(inv[0], ast.Constant)):
+      rep.derived(R, key, site(f, node))
+    else:
+      rep.refuted(R, key, site(f, node), 'the bound enters the comparison '
+                  'as %s: floating-point arithmetic on min_rate moves the '
+                  'boundary (1 - 0.8 = 0.19999999999999996), a cut-off whose '
+                  'rate equals min_rate is no longer admissible'
+                  % ast.unparse(inv[0]))
+  rep.floor('comparisons with min_rate', n, 2)
+
+
 def _lin_str(terms, const):
   bits = ['%s*%s' % (c, k) for k, c in terms]
   if const:
@@ -1289,6 +1332,7 @@ def check(repo, rep, tier):
   rule_accuracy(repo, rep)
   rule_fbeta(repo, rep)
   rule_roc(repo, rep)
+  rule_bound_unmodified(repo, rep)
   rule_fit_calibrates(repo, rep)
   rep.assume('library semantics: precision_recall_curve / roc_curve return '
              'the rates at every distinct score in decreasing order of '
